@@ -311,6 +311,9 @@ class Reader:
         else:
             if name in self.undefined_values:
                 value = self.undefined_values[name]
+                # The placeholder gets the type expected at this use, its
+                # real type is only known when the definition is seen.
+                value.ty = ty
             else:
                 value = ir.Undefined(name, ty)
                 self.undefined_values[name] = value
@@ -337,8 +340,8 @@ class Reader:
                 # Go for binop
                 op = self.consume(self.peek)[1]
                 b = self.parse_id()
-                a = self.find_value(a)
-                b = self.find_value(b)
+                a = self.find_value(a, ty=ty)
+                b = self.find_value(b, ty=ty)
                 ins = ir.Binop(a, op, b, name, ty)
             elif a == "phi":
                 ins = ir.Phi(name, ty)
@@ -389,7 +392,7 @@ class Reader:
         elif self.peek == "-":
             self.consume("-")
             operation = "-"
-            a = self.parse_value_ref()
+            a = self.parse_value_ref(ty=ty)
             ins = ir.Unop(operation, a, name, ty)
         else:  # pragma: no cover
             raise NotImplementedError(self.peek)
